@@ -20,21 +20,24 @@ CHECKS = {
     technique="Coq proof (nested induction over block trees) + model/implementation correspondence by vm_compute",
     ref="4 C16"),
  "C01": dict(
-    text="PROOF (coq/props/C01.v): build_sem - whenever the model of build returns a model m, executing the emitted nested graphs "
-         "(names erased) on any values of the inputs yields, for each requested output, the meaning of the requested Var, for EVERY "
-         "extensional operator semantics; proved through the linearisation theorem run_correct (any well-formed plan computes eval; "
-         "nested induction over graph trees, unbounded) + a proved-sound executable well-formedness check that the model applies to "
-         "its own output. Per-run CORRESPONDENCE: the real ModelProto equals the model's output name-for-name on generated programs "
+    text="PROOF (coq/props/C01.v): C01_build_sem_named - whenever the model of build returns a model m, executing the emitted nested "
+         "graphs BY NAME (environment string->value threaded through bodies, inlined blocks and result identities) on any values of the "
+         "inputs yields, for each requested output, the meaning of the requested Var, for EVERY extensional operator semantics; proved "
+         "through the linearisation theorem run_correct (any well-formed plan computes eval; nested induction over graph trees, "
+         "unbounded), named_is_plan (named execution = name-erased plan execution under the name-table validators) and proved-sound "
+         "executable well-formedness checks that the model applies to its own output. Per-run CORRESPONDENCE: the real ModelProto equals the model's output name-for-name on generated programs "
          "(If/Loop/Scan nesting, closures, sharing, leaks). Direct ORACLE: every built model executed by onnxruntime vs an "
          "independent numpy evaluator of the object graph.",
-    note=TB + "Assumed: onnxruntime implements the abstract opsem; the naming layer (names -> Vars injective) is C02's theorem, the "
-         "semantic theorem is stated on the name-erased plan. 'Legal programs always build' is validated (correspondence), not proved.",
+    note=TB + "Assumed: onnxruntime implements the abstract opsem (each operator's ONNX semantics). 'Legal programs always build' is "
+         "validated (correspondence + oracle: a legal generated program that is refused is reported), not proved.",
     technique="Coq proof (linearisation theorem + verified plan validator) + exact model/implementation correspondence + ORT-vs-numpy oracle",
     ref="4 C01"),
  "C02": dict(
     text="PROOF (coq/props/C02.v): a model is returned only after the final structural check; every value name is defined once in "
          "the whole model (all subgraphs, inlined blocks), node names unique, one import per domain - statements about the model's "
-         "build incl. proved-sound validators. CORRESPONDENCE: EXACT rendering (names, order, types, imports, functions) of the real "
+         "build incl. proved-sound validators; BY CONSTRUCTION (no validator, every fuel/nesting): the naming tables stay injective "
+         "through compile and reserved names never name a Var (ScopeFacts via the generic CompilePres.compile_inv), the GraphProto of "
+         "every scope is in SSA form at top level (SsaFacts). CORRESPONDENCE: EXACT rendering (names, order, types, imports, functions) of the real "
          "ModelProto vs the model on programs with inlined models, functions, custom operators, benign and adversarial user names "
          "(harvested from a previous build), both drop_unused_inputs values. ORACLE: full ONNX checker + strict inference + "
          "onnxruntime load + independent whole-model walker on every returned model.",
@@ -43,9 +46,11 @@ CHECKS = {
     technique="Coq proof (validated build model) + exact-name correspondence + checker/ORT/walker oracle",
     ref="4 C02"),
  "C03": dict(
-    text="PROOF (coq/props/C03.v): graph inputs/outputs = requested entries (names, order, types), with drop_unused_inputs exactly the "
-         "inputs some output depends on in given order; unlisted inputs never returned (KeyError); TypeError/ValueError rules of the "
-         "public wrapper. CORRESPONDENCE: exact rendering + exception class on permuted/subset/extra/malformed requests. ORACLE: "
+    text="PROOF (coq/props/C03.v): C03_io_by_construction (no validator, no premise): the graph inputs of a returned model are the "
+         "requested arguments (all in order; with drop_unused_inputs a sub-sequence of the listed Vars, compared as Vars), the graph "
+         "outputs are the requested outputs in order, every entry under the name it was requested with and with the concrete type of "
+         "its Var (IOFacts: a named Var is only ever bound to its name; bindings never change); with drop_unused_inputs exactly the "
+         "inputs some output depends on (validator io_exact); TypeError/ValueError/KeyError rules of the public wrapper. CORRESPONDENCE: exact rendering + exception class on permuted/subset/extra/malformed requests. ORACLE: "
          "independent dependency walker; drop cases repeated in fresh processes under 4 PYTHONHASHSEEDs.",
     note=TB + "Hash-seed independence of the real code is established by execution, not proof.",
     technique="Coq proof + exact correspondence + multi-process hash-seed repeats",
@@ -53,7 +58,9 @@ CHECKS = {
  "C04": dict(
     text="PROOF (coq/props/C04.v): emitted exactly once = reachable set; each application sits in the innermost graph enclosing all "
          "consumers (LCA = longest common prefix, proved greatest lower bound); definition before use through enclosing graphs "
-         "(well-formed plan). CORRESPONDENCE on an EXHAUSTIVE skeleton family (scope trees x creation scope x body dependence x use "
+         "(well-formed plan) - by proved-sound validators; BY CONSTRUCTION: the builder's explicit-stack DFS lists every node once "
+         "with dependencies first (postorder_spec), the GraphProto of scope g holds at top level exactly the nodes assigned to g in "
+         "that order, the whole tree is the ownership map unfolded, no node twice (EmitFacts; premises evaluated on every program). CORRESPONDENCE on an EXHAUSTIVE skeleton family (scope trees x creation scope x body dependence x use "
          "sets) + random leak-heavy programs. ORACLE: independent placement walker on the ModelProto, operator counts, legality rule.",
     note=TB + "Exhaustive only for the stated skeleton family.",
     technique="Coq proof + exhaustive skeleton enumeration + independent walker",
